@@ -428,3 +428,28 @@ def run_catch(chk, F, rid="R-CATCH"):
                    "around a parse call is terminated" % (fn["q"], ty), "%s:%s" % (f, t.get("l")))
     if n < 20:
         raise AnalysisBroken("only %d throw expressions found" % n)
+
+
+# ---------------------------------------------------------------------------------------------- R-DTOR
+def run_dtor(chk, F, CG, rid="R-DTOR"):
+    """A destructor is implicitly noexcept: an exception that escapes it calls std::terminate, i.e. the process is
+    aborted instead of the entry point throwing a std::exception.  Every call in a destructor of a library class that
+    may throw (escaping-exception analysis over the call graph) must sit inside a catch-all / matching handler."""
+    chk.rule(rid, "no destructor defined in the library lets an exception escape: every call in it that may throw is "
+                  "enclosed by a handler that catches it (destructors are implicitly noexcept -> std::terminate)")
+    n = 0
+    esc = CG.escapes()
+    from ..callgraph import fkey_of_fn
+    for fn in F.functions.values():
+        f = fn.get("file") or ""
+        if not fn["name"].startswith("~") or ("/gen/" in f and not f.endswith((".y", ".l"))):
+            continue
+        if not (f.endswith((".cpp", ".h", ".hpp", ".y", ".l"))) or fn.get("body") is None:
+            continue
+        n += 1
+        out = sorted(t[0] for t in esc.get(fkey_of_fn(fn), set()))
+        chk.ob(rid, fn["q"], not out,
+               "%s can let %s escape: it is implicitly noexcept, so instead of the parse call throwing a std::exception "
+               "the process is terminated" % (fn["q"], ", ".join(out[:3])), "%s:%s" % (f, fn["line"]))
+    if n == 0:
+        chk.ob(rid, "none", True, "the library defines no destructor with a body")
